@@ -332,6 +332,11 @@ func RunWorker(cfg WorkerConfig) int {
 
 			fmt.Fprintf(runLog, "%d %d tape=%x trace=%x steps=%d cases=%d nontrivial=%v ordersens=%v sig=%s\n", i, runSeed,
 				HashString(fmt.Sprint(tape.Used())), res.TraceHash, res.Steps, res.Cases, res.Nontrivial, res.OrderSensitive, sig)
+
+			if os.Getenv("VERIF_RUNLOG_TRACE") != "" && res.Trace != nil {
+				b, _ := json.Marshal(res.Trace)
+				fmt.Fprintf(runLog, "  %s\n", b)
+			}
 		}
 
 		if res.Cases > 1 {
